@@ -117,6 +117,7 @@ type Contracts struct {
 	dupTrusted  [][2]*FuncContract
 	Tables      map[string]bool // "pkgpath.name" of package-level tables
 	Embedded    []string        // "pkgpath.Type.field": struct fields modelled as objects of their own
+	GhostFields map[string]bool // ghostfield NAME: an integer ghost field of objects, read as NAME(x)
 }
 
 // CheckDuplicates verifies that repeated trusted contracts carry the same clauses.
@@ -148,7 +149,7 @@ var clauseKW = map[string]bool{
 	"func": true, "spec": true, "lemma": true, "axiom": true, "trusted": true, "mode": true, "props": true,
 	"requires": true, "ensures": true, "modifies": true, "loop": true, "inline": true,
 	"pure": true, "nullable": true, "may_alias": true, "panics": true, "wraps": true,
-	"decoder": true, "abstract": true, "ghost": true, "terminates": true, "uninterp": true, "at": true, "opaque": true, "def": true, "table": true, "anymode": true, "uses": true, "embedded": true,
+	"decoder": true, "abstract": true, "ghost": true, "terminates": true, "uninterp": true, "at": true, "opaque": true, "def": true, "table": true, "anymode": true, "uses": true, "embedded": true, "ghostfield": true,
 }
 
 var reTag = regexp.MustCompile(`^(\w+)\[([A-Z0-9, ]+)\]`)
@@ -306,6 +307,16 @@ func (cs *Contracts) ParseContractFile(path, pkgPath string) error {
 		case "table":
 			for _, n := range strings.Fields(strings.ReplaceAll(rest, ",", " ")) {
 				cs.Tables[pkgPath+"."+n] = true
+			}
+			cur = nil
+		case "ghostfield":
+			// ghostfield NAME: every object (pointer or interface value) has an integer ghost field,
+			// read in specifications as NAME(x) and named in frames as NAME(x)
+			if cs.GhostFields == nil {
+				cs.GhostFields = map[string]bool{}
+			}
+			for _, n := range strings.Fields(strings.ReplaceAll(rest, ",", " ")) {
+				cs.GhostFields[n] = true
 			}
 			cur = nil
 		case "uninterp":
